@@ -445,7 +445,7 @@ Print Assumptions C18_take_twice.
    acquisition devices hold relative to the record is dac_entry_ok of the S3/S4 theorems above). *)
 Theorem C18_register_own_windows : forall dm ch name o chans cb update order ob,
   lookup o (live (fst (crun dm ch))) = Some ob ->
-  reaches_take (snd (crun dm ch)) chans cb = true ->
+  reaches_take (chmap (snd (crun dm ch))) chans cb = true ->
   let own := collect (h_own ob) in
   let res := register_program dm (snd (crun dm ch)) name {| p_tag := o; p_chans := chans; p_meas := own |} cb update order in
   snd (cstep dm (crun dm ch) (CRegObj name o chans cb update order)) = fst res
@@ -455,7 +455,7 @@ Print Assumptions C18_register_own_windows.
 
 (* a call that does not reach _take_measurements raises without effect, whatever the measurements are *)
 Theorem C18_register_not_reached : forall dm st name o chans m cb update order,
-  reaches_take st chans cb = false ->
+  reaches_take (chmap st) chans cb = false ->
   snd (register_program dm st name {| p_tag := o; p_chans := chans; p_meas := m |} cb update order) <> None
   /\ fst (register_program dm st name {| p_tag := o; p_chans := chans; p_meas := m |} cb update order) = st.
 Proof. exact not_reached_raises. Qed.
